@@ -55,4 +55,104 @@ theorem report_subset (m : Module) : ∀ t ∈ refReport m, ∃ r ∈ m.refs, r.
 example : consistent ⟨[(0, "a"), (1, "cm")], [⟨1, true, "cm"⟩, ⟨0, false, "a"⟩]⟩ = true := by decide
 example : refReport ⟨[(0, "a")], [⟨1, true, "cm"⟩, ⟨0, true, "a"⟩, ⟨0, false, "zz"⟩]⟩ = ["cm"] := by decide
 
+
+/-! ### the `THIS.` convention -/
+
+theorem validComponent_iff (x : String) (cont : List (List String)) :
+    validComponent x cont = true ↔ ∀ comps ∈ cont, x ∈ comps := by
+  simp [validComponent, List.all_eq_true]
+
+/-- under the rule the report is a plain filter of the references -/
+theorem thisReport_rule (c : ThisCase) (hd : c.direct = false) (hc : c.containing ≠ []) :
+    thisReport c = c.refs.filterMap fun x => if validComponent x c.containing = true then none else some x := by
+  have hne : c.containing.isEmpty = false := by
+    cases h : c.containing with
+    | nil => exact absurd h hc
+    | cons _ _ => rfl
+  unfold thisReport
+  congr 1
+  funext x
+  simp [hd, hne]
+
+/-- when the rule applies (typedef not used directly, contained in at least one structure): `x` is reported exactly when
+    some `THIS.x` reference exists and some containing structure has no component `x` -/
+theorem this_report_iff (c : ThisCase) (hd : c.direct = false) (hc : c.containing ≠ []) (t : String) :
+    t ∈ thisReport c ↔ t ∈ c.refs ∧ ∃ comps ∈ c.containing, t ∉ comps := by
+  rw [thisReport_rule c hd hc, List.mem_filterMap]
+  constructor
+  · rintro ⟨x, hx, h⟩
+    by_cases hv : validComponent x c.containing = true
+    · simp [hv] at h
+    · simp only [hv, Bool.false_eq_true, ↓reduceIte, Option.some.injEq] at h
+      subst h
+      refine ⟨hx, ?_⟩
+      rw [validComponent_iff] at hv
+      simpa using hv
+  · rintro ⟨hx, comps, hcm, hn⟩
+    refine ⟨t, hx, ?_⟩
+    have hv : ¬ validComponent t c.containing = true := by
+      rw [validComponent_iff]
+      exact fun h => hn (h comps hcm)
+    simp [hv]
+
+/-- a typedef all of whose `THIS.x` name a component of every containing structure yields no report -/
+theorem this_consistent_empty (c : ThisCase) (hd : c.direct = false) (hc : c.containing ≠ [])
+    (h : ∀ x ∈ c.refs, ∀ comps ∈ c.containing, x ∈ comps) : thisReport c = [] := by
+  apply List.eq_nil_iff_forall_not_mem.2
+  intro t ht
+  obtain ⟨hx, comps, hcm, hn⟩ := (this_report_iff c hd hc t).1 ht
+  exact hn (h t hx comps hcm)
+
+theorem filterMap_valid_nil (cont : List (List String)) (l : List String)
+    (hl : ∀ y ∈ l, validComponent y cont = true) :
+    l.filterMap (fun y => if validComponent y cont = true then none else some y) = [] := by
+  induction l with
+  | nil => rfl
+  | cons a l ih =>
+    simp only [List.filterMap_cons, hl a (List.mem_cons_self ..), ↓reduceIte]
+    exact ih fun y hy => hl y (List.mem_cons_of_mem _ hy)
+
+/-- renaming one `THIS.x` to a component that one containing structure lacks yields exactly that name -/
+theorem this_corrupt_one (c : ThisCase) (hd : c.direct = false) (hc : c.containing ≠ [])
+    (h : ∀ x ∈ c.refs, ∀ comps ∈ c.containing, x ∈ comps) (pre post : List String) (x bad : String)
+    (hr : c.refs = pre ++ x :: post) (comps : List String) (hcm : comps ∈ c.containing) (hbad : bad ∉ comps) :
+    thisReport { c with refs := pre ++ bad :: post } = [bad] := by
+  have hv : ∀ y ∈ c.refs, validComponent y c.containing = true := fun y hy =>
+    (validComponent_iff y c.containing).2 (h y hy)
+  have hbadv : ¬ validComponent bad c.containing = true := by
+    rw [validComponent_iff]
+    exact fun hall => hbad (hall comps hcm)
+  rw [thisReport_rule { c with refs := pre ++ bad :: post } hd hc]
+  show (pre ++ bad :: post).filterMap (fun y => if validComponent y c.containing = true then none else some y) = [bad]
+  rw [List.filterMap_append, List.filterMap_cons,
+      filterMap_valid_nil c.containing pre (fun y hy => hv y (by rw [hr]; exact List.mem_append_left _ hy)),
+      filterMap_valid_nil c.containing post
+        (fun y hy => hv y (by rw [hr]; exact List.mem_append_right _ (List.mem_cons_of_mem _ hy)))]
+  simp [hbadv]
+
+/-- when the rule does not apply (the typedef is used directly by an INSTANCE, or no structure contains it), `THIS.x` is an
+    ordinary name: it is reported, with its prefix, exactly when no object of that name exists -/
+theorem this_fallback_iff (c : ThisCase) (h : c.direct = true ∨ c.containing = []) (t : String) :
+    t ∈ thisReport c ↔ ∃ x ∈ c.refs, x ∉ c.objects ∧ t = "THIS." ++ x := by
+  have hcond : (!c.direct && !c.containing.isEmpty) = false := by
+    rcases h with h | h
+    · simp [h]
+    · simp [h]
+  simp only [thisReport, hcond, Bool.false_eq_true, ↓reduceIte, List.mem_filterMap]
+  constructor
+  · rintro ⟨x, hx, h'⟩
+    split at h'
+    · cases h'
+    · rename_i ho
+      cases h'
+      exact ⟨x, hx, by simpa using ho, rfl⟩
+  · rintro ⟨x, hx, ho, rfl⟩
+    refine ⟨x, hx, ?_⟩
+    simp [ho]
+
+/-! non-vacuity: two containing structures, `ax` is a component of only one of them -/
+example : thisReport ⟨false, [], [(true, ["ax", "cv"]), (true, ["cv"]), (false, [])], ["ax", "cv"]⟩ = ["ax"] := by decide
+example : thisReport ⟨true, ["cv"], [(true, ["ax"])], ["ax", "cv"]⟩ = ["THIS.ax"] := by decide
+example : (⟨false, [], [(true, ["ax", "cv"]), (true, ["cv"])], ["cv"]⟩ : ThisCase).containing ≠ [] := by decide
+
 end A2l.Gr
